@@ -55,22 +55,29 @@ theorem valueFrom_append (acc : Nat) (xs ys : List Nat) :
   | nil => rfl
   | cons x xs ih => simp [valueFrom, ih]
 
-theorem revDigits_lt (n : Nat) : ∀ d ∈ revDigits n, d < 10 := by
-  induction n using Nat.strongRecOn with
-  | _ n ih =>
+theorem revDigitsAux_lt (fuel n : Nat) : ∀ d ∈ revDigitsAux fuel n, d < 10 := by
+  induction fuel generalizing n with
+  | zero => simp [revDigitsAux]
+  | succ fuel ih =>
     intro d hd
-    rw [revDigits] at hd
+    simp only [revDigitsAux] at hd
     split at hd
     · simp at hd
     · simp only [List.mem_cons] at hd
       rcases hd with h | h
       · omega
-      · exact ih (n / 10) (by omega) d h
+      · exact ih _ d h
 
-theorem valueFrom_reverse_revDigits (n : Nat) : valueFrom 0 (revDigits n).reverse = n := by
-  induction n using Nat.strongRecOn with
-  | _ n ih =>
-    rw [revDigits]
+theorem revDigits_lt (n : Nat) : ∀ d ∈ revDigits n, d < 10 := revDigitsAux_lt n n
+
+theorem valueFrom_reverse_revDigitsAux (fuel n : Nat) (h : n ≤ fuel) :
+    valueFrom 0 (revDigitsAux fuel n).reverse = n := by
+  induction fuel generalizing n with
+  | zero =>
+    have : n = 0 := by omega
+    subst this; simp [revDigitsAux, valueFrom]
+  | succ fuel ih =>
+    simp only [revDigitsAux]
     split
     · simp_all [valueFrom]
     · rename_i hn
@@ -78,8 +85,14 @@ theorem valueFrom_reverse_revDigits (n : Nat) : valueFrom 0 (revDigits n).revers
       rw [ih (n / 10) (by omega)]
       omega
 
+theorem valueFrom_reverse_revDigits (n : Nat) : valueFrom 0 (revDigits n).reverse = n :=
+  valueFrom_reverse_revDigitsAux n n (Nat.le_refl n)
+
 theorem revDigits_ne_nil {n : Nat} (h : n ≠ 0) : revDigits n ≠ [] := by
-  rw [revDigits]; simp [h]
+  unfold revDigits
+  cases n with
+  | zero => exact absurd rfl h
+  | succ m => simp [revDigitsAux]
 
 /-- The rendering is non-empty and all digits. -/
 theorem render_ne_nil (n : Nat) : render n ≠ [] := by
